@@ -232,6 +232,13 @@ func (api *HTTP) DispatchPrivate(w http.ResponseWriter, r *http.Request) {
 func (api *HTTP) DispatchPrivateWithoutAuth(w http.ResponseWriter, r *http.Request) {
 	defer exitOnRecover()
 
+	if strings.HasPrefix(r.URL.Path, "/debug/") {
+		// net/http/pprof and expvar register themselves on the default mux,
+		// which is not exposed directly (see main).
+		http.DefaultServeMux.ServeHTTP(w, r)
+		return
+	}
+
 	switch r.Method {
 	case http.MethodGet:
 		switch r.URL.Path {
